@@ -184,6 +184,13 @@ fn judge<T>(
                 );
             } else {
                 out.tag(format!("err:{}", codec::err_name(e)));
+                // the text of a truthful error must be truthful too
+                if !codec::display_mentions_fields(e) {
+                    out.violate(
+                        format!("C06:{}:error-text-omits-a-value:{}", what.split('(').next().unwrap_or(what), codec::err_name(e)),
+                        format!("{what} returned {e:?}, whose Display text is \"{e}\" - it does not mention every value the error carries"),
+                    );
+                }
             }
         }
     }
